@@ -4,7 +4,7 @@ PROP = dict(
         gotest="TestC12",
         translator="arithC12",
         extra_props=["ArithTieC12"],
-        extra_gotests=[("TestZdec", "Zdec")],
+        extra_gotests=[("TestZdec", "Zdec"), ("TestC12Ledger", "C12l")],
         model="coq/Models/Commit.v (exact: AddCommittedTokens, DeductFromCommitted, CommitLiquidTokens, UncommitTokens incl. liquidation flag, "
               "CommitClaimedRewards, BurnEdenBoost, DepositLiquidTokensClaimed, claimed ledger, estaking EdenUncommitted burn formula; "
               "TotalCommitted updates per call site as coded)",
